@@ -182,6 +182,23 @@ def run(ctx):
         if bi == 1:
             gf = V.GafFile(os.path.join(d, "big.gaf"), g, recs, False)
             check_file(ctx, gf, gfa, "large-text")
+    # --- text variants: byte offsets differ from character counts (UTF-8), lines end in CR LF (added after seeded change C03-3) ----------
+    ctx.bound("text variants: 3 graphs x {multi-byte UTF-8 read names, a UTF-8 Z value, CR LF line ends} x plain text and BGZF, unstable and stable, 3-12 records")
+    for ti in range(3):
+        g = V.random_graph(rng, hap_mode="separated")
+        d = ctx.dir("c03text")
+        gfa = V.write_graph(d, g)
+        for stable in (False, True):
+            recs = V.make_records(g, rng, rng.choice([3, 5, 12]), stable)
+            variants = {
+                "utf8-read-name": ([["r\u00e9ad\u4e2d%d" % i] + list(r[1:]) for i, r in enumerate(recs)], "\n"),
+                "utf8-z-value": ([list(r) + ["co:Z:caf\u00e9 \u2713"] for r in recs], "\n"),
+                "crlf": ([list(r) for r in recs], "\r\n"),
+            }
+            for vname, (vrecs, eol) in variants.items():
+                for bg in (False, True):
+                    gf = V.GafFile(os.path.join(d, "%s-%s.gaf%s" % (vname, "s" if stable else "u", ".gz" if bg else "")), g, vrecs, bg, eol=eol)
+                    check_file(ctx, gf, gfa, "text-variants")
     # --- empty files ---------------------------------------------------------------------------------------
     g = V.random_graph(rng)
     d = ctx.dir("c03empty")
